@@ -246,6 +246,91 @@ func run(repo string) (string, error) {
 		drain = wd.lines
 	}
 
+	// handleQuery: the deadline, the context handed to the stages, the deferred calls, and the WIRING of the
+	// stages as data: (switch case label or "", callee, results, arguments) for every stage call in order
+	stageNames := map[string]bool{"choseSubmitter": true, "genSysRandom": true, "genUserRandom": true, "genQueryResult": true,
+		"genSign": true, "dispatchSign": true, "recoverSign": true, "reportQueryResult": true, "mergeErrors": true}
+	type stageWire struct {
+		label, callee string
+		outs, args    []string
+	}
+	var wires []stageWire
+	var hqDefers []string
+	ctxDefs := map[string]string{}
+	var visit func(list []ast.Stmt, label string)
+	record := func(label string, lhs []ast.Expr, e ast.Expr) {
+		ast.Inspect(e, func(nd ast.Node) bool {
+			c, ok := nd.(*ast.CallExpr)
+			if !ok {
+				return true
+			}
+			id, ok := c.Fun.(*ast.Ident)
+			if !ok || !stageNames[id.Name] {
+				return true
+			}
+			w := stageWire{label: label, callee: id.Name}
+			if c == e { // the call is the whole right-hand side: its results are the left-hand side
+				for _, l := range lhs {
+					w.outs = append(w.outs, src(fset, l))
+				}
+			}
+			for _, a := range c.Args {
+				w.args = append(w.args, src(fset, a))
+			}
+			wires = append(wires, w)
+			return true
+		})
+	}
+	visit = func(list []ast.Stmt, label string) {
+		for _, st := range list {
+			switch x := st.(type) {
+			case *ast.AssignStmt:
+				if len(x.Rhs) == 1 {
+					record(label, x.Lhs, x.Rhs[0])
+					if len(x.Lhs) >= 1 {
+						if n := src(fset, x.Lhs[0]); n == "queryCtx" || n == "queryCtxWithValue" {
+							ctxDefs[n] = src(fset, x.Rhs[0])
+						}
+					}
+				}
+			case *ast.ExprStmt:
+				record(label, nil, x.X)
+			case *ast.DeferStmt:
+				if t := src(fset, x.Call); !isLog(t) {
+					hqDefers = append(hqDefers, t)
+				}
+			case *ast.SwitchStmt:
+				for _, c := range x.Body.List {
+					cc := c.(*ast.CaseClause)
+					var ls []string
+					for _, e := range cc.List {
+						ls = append(ls, src(fset, e))
+					}
+					visit(cc.Body, src(fset, x.Tag)+"=="+strings.Join(ls, "|"))
+				}
+			}
+		}
+	}
+	visit(hq.Body.List, "")
+	leanStrs := func(xs []string) string {
+		out := "["
+		for i, x := range xs {
+			if i > 0 {
+				out += ", "
+			}
+			out += ex.LeanStr(x)
+		}
+		return out + "]"
+	}
+	wiring := "def handleQueryWiring : List (String × String × List String × List String) := ["
+	for i, w := range wires {
+		if i > 0 {
+			wiring += ","
+		}
+		wiring += fmt.Sprintf("\n  (%s, %s, %s, %s)", ex.LeanStr(w.label), ex.LeanStr(w.callee), leanStrs(w.outs), leanStrs(w.args))
+	}
+	wiring += "\n]\n"
+
 	// the hook copy of queryLoop with an injected tick channel (dosnode/zz_verif_c13.go, build tag verif)
 	var tickLines, tickParams []string
 	if fsetT, hk, err := ex.Parse(filepath.Join(repo, "dosnode", "zz_verif_c13.go")); err == nil {
@@ -281,6 +366,12 @@ func run(repo string) (string, error) {
 	s += "/-- drainSigns (absent = empty lists): parameter names and control skeleton -/\n"
 	s += leanList("drainSignsParams", drainParams)
 	s += leanList("drainSigns", drain)
+	s += "/-- handleQuery: the right-hand sides that define the query context (deadline) and the context handed to every stage; its deferred calls (logging left out) -/\n"
+	s += fmt.Sprintf("def handleQueryCtx : String := %s\n", ex.LeanStr(ctxDefs["queryCtx"]))
+	s += fmt.Sprintf("def handleQueryCtxWithValue : String := %s\n", ex.LeanStr(ctxDefs["queryCtxWithValue"]))
+	s += leanList("handleQueryDefers", hqDefers)
+	s += "/-- handleQuery: every stage call in order as (switch case label or \"\", callee, results, arguments) -/\n"
+	s += wiring
 	s += "/-- hook VerifQueryLoopTick (dosnode/zz_verif_c13.go): parameters and control skeleton, same walker as queryLoop -/\n"
 	s += leanList("queryLoopTickParams", tickParams)
 	s += leanList("queryLoopTick", tickLines)
